@@ -268,9 +268,17 @@ class Attack:
                 lines[1 + ai] = new + lines[1 + ai][len(old):]
                 lines[0] = f"class {name}[T: {A.render(bound)}](State):"
                 self.R.count("classes_with_unspecialised_bounded_type_variable")
+        base_src = ""
+        if rng.random() < 0.2 and not lines[0].startswith(f"class {name}["):
+            # the class narrows attributes it inherits: a base declares them with a wider annotation (Any / a bare container / optional),
+            # the class under test re-annotates them - the annotation of the class itself is the one that counts
+            wide = [rng.choice(["Any", "Any", "Sequence[Any] | Mapping[Any, Any] | Set[Any] | Any"]) for _ in attrs]
+            base_src = f"class {name}Base(State):\n" + "".join(f"    {an}: {w} = None\n" for (an, _, _), w in zip(attrs, wide))
+            lines[0] = f"class {name}({name}Base):"
+            self.R.count("classes_re_annotating_inherited_attributes")
         # a derived value computed on first use and kept by the instance (functools.cached_property): reading it is no modification
         lines += ["    @functools.cached_property", "    def hv_derived(self):", "        return ('derived', len(type(self).__ATTRIBUTES__), object())"]
-        src = "import functools\n" + "\n".join(lines) + "\n"
+        src = "import functools\n" + base_src + "\n".join(lines) + "\n"
         try:
             N.define(src)
         except BaseException as exc:  # noqa: BLE001
